@@ -2,7 +2,7 @@
 import os
 from hypothesis import strategies as st
 from vlib.runner import Part, Violation
-from vlib import gen, refmodel as R, pv
+from vlib import gen, refmodel as R, pv, tools
 from checks.common import hist_run, mcvs
 
 ID = "C13"
@@ -15,7 +15,7 @@ RULE = ("accepted traces over all eight models, 1-3 looms, 1-3 processes per loo
         "syntax, timestamps non-decreasing, rows within 1..n, header duration = corrected time of the last input "
         "event minus the first, every type used declared in the .pcf, every non-zero value of the emulator-defined "
         "state types labelled, .row declares n and lists n names in the documented order (computed by the "
-        "reference layout).  Non-trivial = >= 2 threads and (>= 2 models or >= 2 looms); distinct = trace.")
+        "reference layout); every third accepted trace is emulated a second time into the same directory after the output files were made longer with stale content, and checked again.  Non-trivial = >= 2 threads and (>= 2 models or >= 2 looms); distinct = trace.")
 ASSUMPTIONS = ["only accepted traces are examined (rejected ones are counted and skipped)",
                "row order is the documented one: looms by name or minimum rank, processes by rank or pid, threads by tid, CPUs by phyid, vCPU last"]
 
@@ -41,6 +41,9 @@ PROF_B = mkprof(True)
 PROF_B.no_bare_pause = False
 
 
+ctx_b = [None]
+
+
 def extra(case):
     def f(model, d, r):
         names = []
@@ -59,6 +62,27 @@ def extra(case):
                                      expect_rows=rows)
             if wp:
                 raise Violation("malformed breakdown output: " + "; ".join(wp[:3]))
+        # The trace directory may already hold the output of an earlier (longer) emulation:
+        # every third case leaves stale, longer files in place and emulates again; what the
+        # emulator generates now must be well-formed just the same.
+        if sum(len(s_["events"]) for s_ in case["streams"]) % 3 == 0:
+            stale = 0
+            for fn in sorted(os.listdir(d)):
+                if fn.endswith((".prv", ".pcf", ".row")):
+                    p = os.path.join(d, fn)
+                    body = open(p, "rb").read()
+                    with open(p, "ab") as fh:
+                        fh.write(body[-3000:] + b"2:1:1:1:1:99999999999:4:1\n2:1:1:1:1:999")
+                    stale += 1
+            r2 = tools.emu(ctx_b[0], d, tuple(case.get("_flags", ["-l"])))
+            if not r2.ok:
+                raise Violation("second emulation into the same directory fails: %s" % r2.brief())
+            exp_dur = model.snap[-1][0] if model.snap else 0
+            wp = pv.check_wellformed(d, expect_duration=exp_dur, expect_rows=R.row_names(model.looms, model.threads, model.cpus))
+            if names:
+                wp += pv.check_wellformed(d, names=tuple(names), expect_duration=exp_dur, expect_rows=rows)
+            if wp:
+                raise Violation("malformed Paraver output when the directory held %d older, longer output files: %s" % (stale, "; ".join(wp[:3])))
     return f
 
 
@@ -79,6 +103,7 @@ def classes(case, res):
 
 
 def run(case, ctx):
+    ctx_b[0] = ctx.b(None)
     try:
         return hist_run(case, ctx, nt=nt, wellformed=True, extra_cls=classes, extra_check=extra(case))
     except Violation as v:
